@@ -132,7 +132,10 @@ class SimpleAdapter:
             'pcA': self.sched.label_of('A'), 'ak': self.ak,
             'pcH': self.sched.label_of('H'), 'hk': self.hk,
             'pcC': self.sched.label_of('C'), 'ck': self.ck,
-            'buf': [str(x[1]) for x in sc.input_buffer.raw()],
+            # (the instance may have replaced its buffer object)
+            'buf': [str(x[1]) for x in (
+                sc.input_buffer.raw() if hasattr(sc.input_buffer, 'raw')
+                else list(sc.input_buffer))],
             'inEv': sc.input_event.flag, 'connEv': sc.connected_event.flag,
             'connected': bool(sc.connected),
             'eioUp': c.eio.state == 'connected',
